@@ -31,6 +31,8 @@ MAP = [
     ("a failed (re-)solve must not leave a stale cached solution", "C13", "after an inconclusive (re-)solve the k-models, MinSetCover and MinErrorFlow (inconclusive few-flow-values phase) still handed out the previously cached solution / stayed solved"),
     ("greedy pre-check of kFlowDecomp must count constraint edges", "C03", "with length_attr given and coverage by edge count the greedy pre-check of kFlowDecomp summed edge lengths: a greedy decomposition violating a subpath constraint was accepted and MinFlowDecomp returned fewer paths than any constrained decomposition (also C10; first pointed out by two seeding sub-agents, then reproduced by C03 after adding a length attribute to count-coverage cases)"),
     ("elements_to_ignore_percentile must not drop", "C10", "kMinPathErrorCycles(flow_attr_origin='node', elements_to_ignore_percentile=p) always raised ValueError: the percentile selection replaced the internal ignore list that holds the node-expanded graph's original edges (also C11, C19 converse; pointed out by a seeding sub-agent, reproduced by the C10 percentile-vs-explicit-list cases)"),
+    ("subgraph-scanning lower bound must skip windows", "C03", "MinFlowDecomp(use_subgraph_scanning_lowerbound) raised 'Failed to add columns' / OverflowError when a scanning window consisted of ignored edges only (weight bound -inf); found by the thorough tier, now also in the quick corpus"),
+    ("safe sequences must tolerate edges that lie on no source-to-sink walk", "C06", "maximal_safe_sequences_via_dominators raised IndexError on digraphs containing an edge from which the sink cannot be reached / that no source reaches: walk models with a non-empty trusted set crashed at construction (also C08, C19 converse); found by the exhaustive small-scope enumeration of the thorough tier"),
     ("MinErrorFlow with few_flow_values_epsilon on node-weighted", "C16", "MinErrorFlow(flow_attr_origin='node', few_flow_values_epsilon>0) raised KeyError"),
 ]
 def main():
